@@ -8,6 +8,7 @@ A *template* (units/<name>.rs.tpl) is ordinary Verus text plus `//@` directives:
   //@  rw <RULE> <COUNT> custom          followed by  //@  | <python regex>   and   //@  > <replacement>
   //@  ret <name>                        `-> T` becomes `-> (name: T)` (needed to state an `ensures`)
   //@  derive <traits>                   keep `#[derive(<traits>)]` on the extracted struct/enum
+  //@  attr <#[...]>                      attribute line put before the item (verifier attributes only)
   //@  fnname <new>                      rename the fn (trait impl -> inherent fn, rule R11)
   //@  spec                              payload = requires/ensures clauses, inserted before the body
   //@  loop <k>                          payload = invariant/decreases of the k-th loop (after rewrites)
@@ -501,13 +502,13 @@ def _do_extract(res, repo_root, head, block, canary, tpl_path):
                 m = re.search(r'\bfn\s+(\w+)', masked)
                 body_open = rscan.find_body_open(masked, m.end(), '{')
                 t.insert(body_open + 1, '\n' + '\n'.join(d.payload) + '\n')
-            elif d.kind in ('rw', 'ret', 'spec', 'derive', 'fnname', 'specfile', 'stub'):
+            elif d.kind in ('rw', 'ret', 'spec', 'derive', 'fnname', 'specfile', 'stub', 'attr'):
                 pass
             else:
                 raise ExtractError("%s:%d: unknown directive %s" % (tpl_path, d.lineno, d.kind))
     else:
         for d in ds:
-            if d.kind not in ('rw', 'derive'):
+            if d.kind not in ('rw', 'derive', 'attr'):
                 raise ExtractError("%s:%d: directive %s only valid on fn items" % (tpl_path, d.lineno, d.kind))
     # derive
     if derive is None and ex.kind in ('struct', 'enum'):
@@ -518,6 +519,9 @@ def _do_extract(res, repo_root, head, block, canary, tpl_path):
                 derive = [x.strip() for x in mm.group(1).split(',') if x.strip() in DERIVE_OK]
     ex.gen_start = len(res.lines) + 1
     res.lines.append(('// ---- extracted: %s :: %s (line %d)' % (file_rel, selector, ex.src_start_line), None))
+    for d in ds:
+        if d.kind == 'attr':
+            res.lines.append((d.arg, None))
     if getattr(ex, 'stub_of', None):
         res.lines.append(('// STUB-OF %s: contract discharged on the real body in unit %s' % (ex.name, ex.stub_of), None))
         res.lines.append(('#[verifier::external_body]', None))
